@@ -47,6 +47,10 @@ CHECKS = {
    technique="bounded-exhaustive enumeration of interface configurations (full product inside each option group x top-level defaults x 3 base contexts) through the real YAML loader, builder and serialiser, decoded by an independent RFC 4861/8106/8781/8910 decoder and compared with expected(config)",
    text="Every configuration of the grammar is loaded by the real loader, built and serialised by the real code and decoded by an independent decoder that enforces 8-octet alignment, zero reserved fields and zero prefix bits beyond the length; decoded values must equal what the configuration means, unrepresentable values may only be rejected or clamped.",
    note="The hook verif_build repeats the two small matches of build_announcement that pick mtu/lifetime from netinfo; RA emission on the wire is not executed. Default RDNSS/DNSSL lifetimes are don't-care."),
+ "C03": dict(level="exploration", engine="E-NET", design="5/C03",
+   technique="exhaustive enumeration of fault-free (query shape x upstream reply shape) exchanges executed against the live in-process DnsService on loopback under a paused clock, judged by an independent DNS decoder",
+   text="Each execution starts a fresh real DnsService, sends one real query over UDP or TCP, lets a scripted upstream answer with an independently encoded reply and compares what the client receives, record for record and section for section, with what the upstream sent.",
+   note="One exchange per execution, no faults (faults are C07's). A relayed REFUSED over UDP that the REFUSED limiter suppresses is not judged here (C16). [::1] listener and client."),
 }
 
 NOT_YET = {
